@@ -60,11 +60,18 @@ def gen_program(rng, tier):
     nshapes = 10 if tier == "quick" else 80
     levels = [2, 3, 4, 4, 5, 5, 5] if tier == "quick" else [2, 3, 4, 4, 5, 5, 6]
     lines, meta = [], {}
-    for k in range(nshapes):
-        sh = gen_mesh.gen_shape(rng)
-        lo, hi = sh["region"]
-        L = rng.choice(levels)
-        mf = gen_mesh.min_feature_for_levels(rng, min(h - l for l, h in zip(lo, hi)), L)
+    nblade = 5 if tier == "quick" else 30
+    for k in range(nshapes + nblade):
+        if k < nshapes:
+            sh = gen_mesh.gen_shape(rng)
+            lo, hi = sh["region"]
+            L = rng.choice(levels)
+            mf = gen_mesh.min_feature_for_levels(rng, min(h - l for l, h in zip(lo, hi)), L)
+        else:       # directed family: thin truncated blades aligned with a row of cells (bounded vertex placement)
+            L = rng.choice([3, 4, 4, 5])
+            sh = gen_mesh.gen_blade(rng, L)
+            lo, hi = sh["region"]
+            mf = sh["min_feature"]
         cid = str(k)
         hdr = ["case %s" % cid] + sh["lines"] + ["root %d" % sh["root"],
                "region %s %s" % (" ".join("%.9g" % c for c in lo), " ".join("%.9g" % c for c in hi))]
@@ -89,7 +96,9 @@ def gen_program(rng, tier):
         lines += hdr + body + ["end"]
         meta[cid] = {"header": hdr, "probes": [l for l in body if l.startswith("probe")],
                      "searches": [l for l in body if l.startswith("search")], "levels": L, "min_feature": mf,
-                     "prims": [p["kind"] for p in sh["prims"]], "ops": sh["ops"], "region": (lo, hi)}
+                     "prims": [p["kind"] for p in sh["prims"]], "ops": sh["ops"], "region": (lo, hi),
+                     # shapes with a thin wedge / blade are below the requested resolution near the thin end
+                     "family": "blade" if k >= nshapes or any(p["kind"][0] in ("wedge", "blade") for p in sh["prims"]) else "csg"}
     return lines, meta
 
 
@@ -152,7 +161,11 @@ def run(rep, tier, seed, replay=None):
         for w in rd["w"]:
             f, wn = float(w[4]), float(w[5])
             expect = 1.0 if f < 0 else 0.0
-            far = abs(f) > K_WIND * mf
+            # the directed blade family is thinner than a cell near its cut-off end, i.e. below the requested
+            # resolution there: the mesh may enclose points up to the distance its vertices may stray (K_DIST) plus
+            # one cell, so the winding number is demanded beyond that; all other shapes use K_WIND
+            kw = (K_DIST[alg] if alg != "simplex" else 0.0) + 1.0 if meta.get(h[1], {}).get("family") == "blade" else K_WIND
+            far = abs(f) > kw * mf
             ok = abs(wn - expect) <= WIND_TOL
             if far:
                 margins["probes_checked"] += 1
@@ -189,8 +202,9 @@ def run(rep, tier, seed, replay=None):
         if far_v:
             rp = replay_of(rd)
             rp.update({"kind": "oracle", "vertices_far_from_level_set(index, x y z f)": far_v[:10], "k_prime": K_DIST[alg]})
+            key = "C04:dc-vertex-far-on-thin-blade" if alg == "dc" and meta.get(h[1], {}).get("family") == "blade" else None
             rep.violation("%s mesh has a vertex with |f| > %g*min_feature: |f|/min_feature = %.4g (case %s, min_feature %s, max_err %s)"
-                          % (alg, K_DIST[alg], abs(float(far_v[0][1][3])) / mf, h[1], h[3], h[4]), rp)
+                          % (alg, K_DIST[alg], abs(float(far_v[0][1][3])) / mf, h[1], h[3], h[4]), rp, key=key)
 
     # ---- searchEdge: property oracle + model correspondence
     searches = [l for l in r.stdout.splitlines() if l.startswith("search ") or l.startswith("hsearch ")]
